@@ -37,7 +37,7 @@ func uuTyped(err error) bool {
 	var pb *uu.ParseError[[]byte]
 	var ns *uu.ParseError[uuNamedS]
 	var nb *uu.ParseError[uuNamedB]
-	return errors.As(err, &ps) || errors.As(err, &pb) || errors.As(err, &ns) || errors.As(err, &nb)
+	return errors.As(err, &ps) || errors.As(err, &pb) || errors.As(err, &ns) || errors.As(err, &nb) || errTypeHas(err, "*uu.ParseError[")
 }
 
 // c05Format checks every output path of one ID and parses each produced text back.
@@ -209,6 +209,13 @@ func c05Parse(w *rt.W, text string, r uu.Rule, both bool) (accepted bool) {
 			judge("DefaultParser[named string]", g, err)
 			g, err = uu.DefaultParser(uuNamedB(text), r)
 			judge("DefaultParser[named []byte]", g, err)
+			// named types that print themselves differently from what they contain
+			g, err = uu.DefaultParser(loudS(text), r)
+			judge("DefaultParser[string type with String()]", g, err)
+			g, err = uu.DefaultParser(hexB(text), r)
+			judge("DefaultParser[[]byte type with hex String()]", g, err)
+			g, err = uu.DefaultParser(fmtS(text), r)
+			judge("DefaultParser[string type with Format()]", g, err)
 		}
 	}
 	return ok
@@ -481,6 +488,7 @@ func runC05(c *rt.Ctx) {
 		uu.MaxInputLength = oldL
 		c.Require("decorated-valid-text", 10000)
 	}
+	refillRun(c, c.Pick(40000, 400000), "uu")
 	coldStart(c, "C05", 12)
 	c.Exhaustive("all 6 pairs of separator positions x all 65,536 byte pairs on one valid text")
 	c.Require("separator-pair-substitution", 390000)
